@@ -372,6 +372,107 @@ func c16RunInner(p c16Plan) *common.Fail {
 				}
 			}
 		}
+	case "tcp-close-race", "udp-close-race":
+		// the peer keeps transmitting while the application calls Close at a drawn moment and drains Inbound:
+		// what was delivered must be an in-order, duplicate-free part of what was sent (a prefix on TCP),
+		// Inbound must close and the receiver must end
+		want, _ := decodeAll(p.Frames)
+		if want == nil {
+			return nil
+		}
+		var sock *knxnet.TunnelSocket
+		var stop func()
+		done := make(chan struct{})
+		if p.Mode == "tcp-close-race" {
+			ln, err := net.Listen("tcp4", "127.0.0.1:0")
+			if err != nil {
+				return nil
+			}
+			defer ln.Close()
+			sock, err = knxnet.DialTunnelTCP(ln.Addr().String())
+			if err != nil {
+				return common.Failf("dial", "DialTunnelTCP: %v", err)
+			}
+			pc, err := ln.Accept()
+			if err != nil {
+				sock.Close()
+				return nil
+			}
+			stop = func() { pc.Close() }
+			go func() {
+				defer close(done)
+				for _, h := range p.Frames {
+					if _, err := pc.Write(unhex(h)); err != nil {
+						return
+					}
+				}
+			}()
+		} else {
+			pc, err := net.ListenUDP("udp4", &net.UDPAddr{IP: net.IPv4(127, 0, 0, 1)})
+			if err != nil {
+				return nil
+			}
+			sock, err = knxnet.DialTunnelUDP(pc.LocalAddr().String())
+			if err != nil {
+				pc.Close()
+				return common.Failf("dial", "DialTunnelUDP: %v", err)
+			}
+			caddr := sock.LocalAddr().(*net.UDPAddr)
+			stop = func() { pc.Close() }
+			go func() {
+				defer close(done)
+				for i, h := range p.Frames {
+					pc.WriteToUDP(unhex(h), caddr)
+					if i%8 == 7 {
+						time.Sleep(20 * time.Microsecond)
+					}
+				}
+			}()
+		}
+		go func() {
+			time.Sleep(time.Duration(p.PauseUs) * time.Microsecond)
+			sock.Close()
+		}()
+		var got []knxnet.Service
+		tm := time.NewTimer(limit)
+		closed := false
+	drain:
+		for {
+			select {
+			case s, open := <-sock.Inbound():
+				if !open {
+					closed = true
+					break drain
+				}
+				got = append(got, s)
+			case <-tm.C:
+				break drain
+			}
+		}
+		tm.Stop()
+		stop()
+		<-done
+		sock.Close()
+		if !closed {
+			return common.Failf("inbound-not-closed", "%s: Inbound() did not close within 5 s after Close was called while frames were arriving", p.Mode)
+		}
+		j := 0
+		for i, g := range got {
+			found := false
+			for ; j < len(want); j++ {
+				if common.SameValue(want[j], g) {
+					found = true
+					j++
+					break
+				}
+				if p.Mode == "tcp-close-race" {
+					break // TCP: no gaps allowed
+				}
+			}
+			if !found {
+				return common.Failf("delivered-differs", "%s: delivery #%d (%s) is not the next transmitted frame (or appears twice / out of order); %d frames sent, %d delivered before Close took effect", p.Mode, i, common.Show(g), len(want), len(got))
+			}
+		}
 	case "hpai":
 		return c16HPAI(p)
 	}
@@ -491,7 +592,7 @@ func genFrames(rt *rapid.T, n int, maxLen int) []string {
 }
 
 func genPlanC16(rt *rapid.T) c16Plan {
-	mode := rapid.SampledFrom([]string{"tcp-recv", "tcp-recv", "tcp-recv", "udp-recv", "tcp-send", "udp-send", "hpai"}).Draw(rt, "mode")
+	mode := rapid.SampledFrom([]string{"tcp-recv", "tcp-recv", "tcp-recv", "udp-recv", "tcp-send", "udp-send", "hpai", "tcp-close-race", "udp-close-race"}).Draw(rt, "mode")
 	p := c16Plan{Mode: mode}
 	switch mode {
 	case "hpai":
@@ -544,6 +645,13 @@ func genPlanC16(rt *rapid.T) c16Plan {
 		p.PeerClose = rapid.Bool().Draw(rt, "peer-close")
 	case "udp-recv":
 		p.Frames = genFrames(rt, rapid.IntRange(1, 40).Draw(rt, "frames"), 1024)
+	case "tcp-close-race", "udp-close-race":
+		// a few distinct frames repeated with a running tunnelling sequence number so that every frame is unique
+		n := rapid.IntRange(20, 300).Draw(rt, "race-frames")
+		for i := 0; i < n; i++ {
+			p.Frames = append(p.Frames, hex.EncodeToString(knxnet.AllocAndPack(&knxnet.TunnelRes{Channel: uint8(i >> 8), SeqNumber: uint8(i), Status: knxnet.ErrCode(i % 3)})))
+		}
+		p.PauseUs = rapid.IntRange(0, 3000).Draw(rt, "close-after")
 	default:
 		p.Frames = genFrames(rt, rapid.IntRange(1, 40).Draw(rt, "frames"), 1024)
 		p.Senders = rapid.IntRange(1, 8).Draw(rt, "senders")
@@ -599,7 +707,7 @@ func TestC16(t *testing.T) {
 			if len(p.Frames) >= 2 && len(p.Cuts) > 0 {
 				rec.NonTrivial(common.HashJSON(p))
 			}
-		} else if p.Senders >= 2 || p.Mode == "udp-recv" || p.Mode == "hpai" {
+		} else if p.Senders >= 2 || p.Mode == "udp-recv" || p.Mode == "hpai" || strings.HasSuffix(p.Mode, "close-race") {
 			rec.NonTrivial(common.HashJSON(p))
 		}
 		rec.Class(cls)
